@@ -74,6 +74,26 @@ func ok_rows(data []byte, fs int) byte {
 	for r := 0; r < len(rows); r++ { for m := 0; m < fs; m++ { x ^= rows[r][m] } }
 	return x
 }
+type grp struct{ mask [4]bool; n uint8 }
+func (g grp) Size() int { c := 0; for _, m := range g.mask { if m { c++ } }; return 1 + 5*c }
+func ok_count(b []byte, g *grp) byte {
+	if len(b) == 0 { return 0 }
+	c := 0
+	for i := range g.mask { if b[0]&(1<<uint8(i)) != 0 { g.mask[i] = true; c++ } }
+	if len(b) < g.Size() { return 0 }
+	var x byte
+	for i := 0; i < c; i++ { x ^= b[1+i*5] }
+	return x
+}
+func bad_index_count(b []byte, g *grp) byte {
+	if len(b) == 0 { return 0 }
+	c := 0
+	for i := range g.mask { if b[0]&(1<<uint8(i)) != 0 { g.mask[i] = true }; c++ }
+	if len(b) < g.Size() { return 0 }
+	var x byte
+	for i := 0; i < c; i++ { x ^= b[1+i*5] }
+	return x
+}
 func bad_div_rows(data []byte, fs int) int { if len(data)%fs != 0 { return 0 }; return len(data) / fs }
 func bad_index_induction(b []byte, step int) byte {
 	var x byte
